@@ -19,10 +19,11 @@ SCENARIOS = [  # (workers, scripts, mode, spurious budget)
     (1, [[1]], 0, 0), (1, [[1, 2]], 1, 0), (1, [[1, 2]], 0, 1), (1, [[1], [2]], 0, 0), (2, [[1, 2]], 0, 0),
     (2, [[1, 2], [3]], 0, 0), (2, [[1, 2, 3]], 1, 0), (2, [[1, 2]], 0, 1), (3, [[1, 2], [3, 4]], 0, 0), (3, [[1, 2], [3, 4]], 1, 1),
     (1, [], 1, 0), (2, [], 1, 1),
+    (2, [[1, 2]], 2, 0), (2, [[1], [2]], 2, 0), (3, [[1, 2, 3]], 2, 0), (2, [[1, 2, 3, 4]], 2, 0),      # rendezvous jobs
 ]
 
 
-def build(d):
+def build(d, noshutdown=False):
     for f in ("threadsafe_queue.h", "threaded_dispatcher.h"):
         with open(os.path.join(HDR, f)) as fh:
             text = fh.read()
@@ -30,8 +31,9 @@ def build(d):
             text = text.replace(a, b)
         with open(os.path.join(d, f), "w") as fh:
             fh.write(text)
-    out = os.path.join(d, "explore")
-    rc, so, se = sh(["g++", "-std=c++17", "-O1", "-g", "-I" + d, "-I" + CXX, os.path.join(CXX, "c15_explore.cpp"), "-o", out, "-pthread"], timeout=300)
+    out = os.path.join(d, "explore_ns" if noshutdown else "explore")
+    flags = ["-DLIFE_NOSHUTDOWN=1"] if noshutdown else []
+    rc, so, se = sh(["g++", "-std=c++17", "-O1", "-g"] + flags + ["-I" + d, "-I" + CXX, os.path.join(CXX, "c15_explore.cpp"), "-o", out, "-pthread"], timeout=300)
     return (out, "") if rc == 0 else (None, (so + se)[-3000:])
 
 
@@ -55,6 +57,8 @@ def parse(so):
             res["deadlock"] = (int(p[1]), p[2:])
         elif p[0] == "ENABLED":
             res["enabled"] = p[1:]
+        elif p[0] == "HAZARD":
+            res["hazard"] = line[7:]
         elif p[0] == "DONE":
             res["done"] = p[1] == "1"
         elif p[0] == "HANDLED":
@@ -68,6 +72,8 @@ def judge(r, workers, scripts, mode):
     """The property read off one controlled run of the real headers.  None or (finding key, description, cut)."""
     if r["done"] is None:
         return ("c15:explore:crash", "exploration probe crashed or printed no verdict", None)
+    if r.get("hazard"):
+        return ("c15:explore:lifetime_hazard", "object lifetime: " + r["hazard"], None)
     if r["exit_alive"]:
         w, step = r["exit_alive"]
         return ("c15:explore:worker_exit_alive", "worker %s left its loop at step %d although the dispatcher is alive (destruction not begun)%s"
@@ -89,7 +95,7 @@ def judge(r, workers, scripts, mode):
             pos = [begun.index(i) for i in sc if i in begun]
             if pos != sorted(pos):
                 return ("c15:explore:order", "items of one producer handled out of dispatch order: %r" % begun, None)
-    if mode == 0 and r["done"] and r["handled"] != r["total"]:
+    if mode in (0, 2) and r["done"] and r["handled"] != r["total"]:
         return ("c15:explore:unhandled", "owner waited for completion, yet only %d of %d items were handled" % (r["handled"], r["total"]), None)
     if not r["done"]:
         return ("c15:explore:no_termination", "the destructor has not returned after the step budget", None)
@@ -107,6 +113,39 @@ def explore_once(binary, workers, scripts, mode, spurious, seed=None, schedule=N
     return parse(so)
 
 
+LIFE_SCENARIOS = [(1, [[1]], 1), (2, [[1, 2], [3]], 1), (1, [[1, 2]], 0), (3, [[1, 2, 3]], 1), (2, [[1, 2, 3, 4]], 0)]
+
+
+def lifetime(ctx, d, searching):
+    """The derived probe class that does NOT call shutdown() in its destructor must keep reproducing the known hazard
+    K-C15-2 (virtual call / running handler on a dying derived part); the default class that does is judged with the rest
+    (any HAZARD there is a violation)."""
+    binary, err = build(d, noshutdown=True)
+    if binary is None:
+        ctx.tie_broken("exploration probe (derived class without shutdown()) does not compile", err)
+        return
+    n = 600 if searching else 240
+    hits = 0
+    for k in range(n):
+        workers, scripts, mode = LIFE_SCENARIOS[k % len(LIFE_SCENARIOS)]
+        seed = ctx.rng.randint(1, 10 ** 6)
+        r = explore_once(binary, workers, scripts, mode, 0, seed=seed)
+        ctx.case(("explore-noshutdown", workers, json.dumps(scripts), mode, seed), nontrivial=True)
+        ctx.count("explore:noshutdown_runs")
+        if r.get("hazard"):
+            hits += 1
+            ctx.count("explore:noshutdown_hazard_reproduced")
+            if hits == 1:
+                ctx.violation("object lifetime (derived destructor without shutdown()): " + r["hazard"],
+                              {"explore": True, "noshutdown": True, "workers": workers, "scripts": scripts, "mode": mode, "spurious": 0,
+                               "schedule": [t for t, _l in r["trace"]], "finding_key": "c15:vptr_race_on_destruction", "detail": r["hazard"]})
+            if hits >= 5:
+                break
+    if not hits:
+        ctx.tie_broken("known finding K-C15-2 no longer reproduces in the explorer: %d schedules of a derived class without shutdown() "
+                       "showed no virtual call on a dying object (retire the finding or repair the probe)" % n)
+
+
 def run(ctx, n_quick=60, n_search=2500):
     searching = bool(ctx.broken) or not ctx.quick
     n = n_search if searching else n_quick
@@ -115,6 +154,7 @@ def run(ctx, n_quick=60, n_search=2500):
         if binary is None:
             ctx.tie_broken("exploration probe does not compile against the current headers with the raw scheduler shim", err)
             return
+        lifetime(ctx, d, searching)
         found = 0
         for k in range(n):
             workers, scripts, mode, spurious = SCENARIOS[k % len(SCENARIOS)]
@@ -180,7 +220,7 @@ def enumerate_runs(ctx, binary, workers, scripts, mode, spurious, max_preempt, l
 
 def replay(ctx, data):
     with kj.scratch() as d:
-        binary, err = build(d)
+        binary, err = build(d, noshutdown=bool(data.get("noshutdown")))
         if binary is None:
             print("  exploration probe does not compile")
             return False
